@@ -83,6 +83,8 @@ func (w *World) applyPara(ds *Doc, op sim.Op, o *Obs) {
 			f = TextFormatOf(op, 1, 1)
 		}
 		p.AddFormattedText(op.Str(0), f)
+	case "p.inlinemath":
+		p.AddInlineMath(op.Str(0))
 	case "p.pbreak":
 		p.AddPageBreak()
 	case "p.align":
